@@ -499,7 +499,7 @@ Json gen_card_edit(Rng &r, const std::vector<Hdu> &hdus, const TableSpec &spec) 
 	if (what < 30) {   // ORDERn / ORDER
 		long long o = spec.order.empty() ? 2 : spec.order[d], na = spec.naxes.empty() ? 4 : (long long)spec.naxes[d];
 		std::vector<std::string> vals = {"0", "1", "5", std::to_string(o + 1), std::to_string(o > 0 ? o - 1 : 3), std::to_string(na), std::to_string(na + o),
-		                                 "-1", "2000000000", "4294967295", "4294967296", "2.5", "T", "1000"};
+		                                 "-1", "2000000000", "4294967295", "4294967296", "2147483650", "2.5", "T", "1000"};
 		std::string key = spec.single_order ? "ORDER" : "ORDER" + std::to_string(d);
 		if (r.chance(0.08)) str(0, key, "2"); else lit(0, key, vals[r.below(vals.size())]);
 	} else if (what < 38) {   // NAXIS
